@@ -105,6 +105,10 @@ func (w *worker) recordEval(c *recCase, raw []byte) {
 	for _, number := range []bool{false, true} {
 		doc, err := decodeDoc(c.Doc, number)
 		if err != nil {
+			if !number {
+				w.count("float64-decoding-rejects-document(json.Number only)", 1)
+				continue
+			}
 			w.infra("generator produced an undecodable document: " + err.Error())
 			return
 		}
